@@ -151,6 +151,9 @@ func (c *coalesceOperator) loadSeries(ctx context.Context) error {
 				switch err := e.(type) {
 				case error:
 					errChan <- errors.Wrapf(err, "unexpected error")
+				default:
+					// A panic raised with any other value must fail the query as well.
+					errChan <- errors.Newf("unexpected error: %v", e)
 				}
 
 			}()
